@@ -39,6 +39,8 @@ union Result = User | Post
 interface Owned { owner: Named tags: [String] }
 type Issue implements Owned { owner: Named tags: [String] n: Int }
 type Repo implements Owned { owner: User! tags: [String!]! stars: Int }
+"lists an interface that itself implements another one BEFORE an unrelated interface"
+type Team implements Named & Node & Owned { id: ID! name: String owner: Named tags: [String] size: Int }
 enum Kind { A B }
 input Filter { kind: Kind name: String = "x" ids: [ID!] nested: Filter min: Int! = 0 req: Boolean! labels: [String!] = ["l"] }
 scalar Date
